@@ -90,6 +90,23 @@ _R7 = {
 }
 for _p, _t in _R7.items():
     CHECKS[_p]["text"] = CHECKS[_p]["text"] + _t
+# ---- clauses added in round 8
+_R8 = {
+ "C01": " A view that leaves a dimension to be inferred beside a number of elements (fails for an empty key) and a view of a packed vector as (-1, n) read column-wise (strided, not block-wise) are reported; a length taken from a dictionary keyed by tensor is reported.",
+ "C02": " (see C01 / C15 for strided readings of packed axes.)",
+ "C03": " reg_eps multiplies the identity itself: an interpolation towards the identity (torch.lerp, eps * (I - G)) is another quadratic form and is reported.",
+ "C07": " chunk(n) cuts into n blocks (ceil(rows / n) rows each), split(k) into blocks of k rows: both are followed by the instance runs; a block size capped by a constant is reported.",
+ "C11": " Type promotion is dimension-aware (a configuration tensor with dimensions promotes the matrix, a 0-d one does not; an in-place operation keeps the dtype of its target; sum(dtype=) sets it).",
+ "C12": " A successor is followed unless it is None, excluded or visited — any other condition on it is reported; the element-wise overlap check is not left early on a condition about one task.",
+ "C13": " A memo (`if k not in d: d[k] = ...`) whose value is computed from a parameter the key does not name, and whose dictionary meets several values of it, is reported (the VJP callable of another sweep).",
+ "C14": " A conjunction hands back what its members produced, never its input; the checks of Gradients / Jacobians compare shapes as wholes (numbers of axes and of elements alone are reported).",
+ "C15": " A column axis made of per-key blocks viewed as (rows, …key axes…, n) interleaves the blocks (reported); container stores (append / extend / …) into an attribute of a transform during an application count as stores.",
+ "C18": " PCGrad: the order of every row is drawn on every path (not only when some row conflicts); products kept up to date instead of recomputed are read through their invariant. MGDA: the step just computed is taken before the loop is left.",
+ "C19": " Tensors handed to numpy that derive from the input are detached first; attributes changed in place (an iterator advanced with next(), a container) are state that reset() must restore.",
+ "C20": " The entry points are also run with their differentiated collection handed over as a one-shot iterable (always true, no len()); a loop variable read after its loop denotes the last element only.",
+}
+for _p, _t in _R8.items():
+    CHECKS[_p]["text"] = CHECKS[_p]["text"] + _t
 NA_PENDING = "check not built yet in this commit (planned, see DESIGN.md section 5)"
 NOT_APPLICABLE = {
  "C04": "Non-conflict is a numerical inequality on the outputs of a QP, a Frank-Wolfe loop and a conic solver with input-dependent allowances; no clause of it is visible in the shape of the code.",
